@@ -4579,8 +4579,17 @@ def inline_temps(tree, path, ref_locals):
                 if any(isinstance(n, ast.Name) and isinstance(n.ctx, (ast.Store, ast.Del)) and n.id in reads for s_ in between for n in ast.walk(s_)):
                     continue
                 # a value that reads object state (attributes, items) must not move across a statement that may change that state
-                reads_state = not alias and any(isinstance(n, (ast.Attribute, ast.Subscript)) for n in ast.walk(st.value))
-                if reads_state and _state_may_change(block[i + 1:max(use_idx)], {n.id for n in ast.walk(st.value) if isinstance(n, ast.Name)}):
+                # (`len(data)` reads the state of `data` as much as `data.size` does)
+                reads_state = not alias and (any(isinstance(n, (ast.Attribute, ast.Subscript)) for n in ast.walk(st.value)) or
+                                             any(isinstance(n, ast.Call) and any(isinstance(a_, ast.Name) for a_ in n.args) for n in ast.walk(st.value)))
+                if reads_state and isinstance(st.value, ast.Attribute) and isinstance(st.value.value, ast.Name) and _CUR_MODEL[0] is not None and \
+                        ('.' + st.value.attr) in _package_signatures(_CUR_MODEL[0]):
+                    reads_state = False         # `m = obj.method`: looking a method up again gives an equal bound method, whatever state obj is in
+                span_ = block[i + 1:max(use_idx)]
+                if isinstance(last, (ast.For, ast.While)) and any(any(u is x for s_ in last.body + last.orelse for x in ast.walk(s_)) or
+                                                                  (isinstance(last, ast.While) and any(u is x for x in ast.walk(last.test))) for u in uses):
+                    span_ = span_ + [last]          # used inside a loop: evaluated again in every iteration, after whatever the body did
+                if reads_state and _state_may_change(span_, {n.id for n in ast.walk(st.value) if isinstance(n, ast.Name)}):
                     continue
                 # uses must come after the definition and in its block (or nested below it)
                 following = block[i + 1:]
